@@ -16,6 +16,7 @@ def pat(cls, mn=1, many=False, cls2=(), mn2=0, many2=False):
     """a pattern over a character class; with cls2 a pattern with TWO groups: /(cls-run)(cls2-run)/ (docs/syntax.rst: the value has the semantics
     of re.findall(pattern, text)[0], a tuple if there is more than one group)"""
     return {'op': 'pat', 'cls': list(cls), 'min': mn, 'many': many, 'cls2': list(cls2), 'min2': mn2, 'many2': many2}
+def zwpat(src): return {'op': 'zwpat', 'src': src}      # a pattern that can only match the empty string (\\b, (?=x), ^): consumes nothing
 def dot(): return {'op': 'dot'}
 def meta(kind): return {'op': 'meta', 'kind': kind}
 def const(v): return {'op': 'const', 'v': val(v)}
@@ -118,7 +119,7 @@ def norm(x):
 
 # ---------------------------------------------------------------- rendering to TatSu EBNF
 
-_ATOM = {'tok', 'pat', 'dot', 'meta', 'const', 'constbad', 'void', 'fail', 'eof', 'cut', 'emptyclosure', 'group', 'skipgroup', 'opt', 'star',
+_ATOM = {'tok', 'pat', 'zwpat', 'dot', 'meta', 'const', 'constbad', 'void', 'fail', 'eof', 'cut', 'emptyclosure', 'group', 'skipgroup', 'opt', 'star',
          'plus', 'call', 'join'}
 
 
@@ -155,6 +156,8 @@ def render(e, top=False):
             q2 = {(1, False): '', (1, True): '+', (0, True): '*', (0, False): '?'}[(e['min2'], e['many2'])]
             return '/(' + body + q + ')(' + body2 + q2 + ')/'
         return '/' + body + q + '/'
+    if op == 'zwpat':
+        return '/' + e['src'] + '/'
     if op == 'meta':
         return '@' + e['kind']
     if op == 'dot':
